@@ -591,6 +591,32 @@ class Interp:
             except _Continue:
                 continue
 
+    def st_While(self, st, env):
+        if st.orelse:
+            raise Unsupported("while-else")
+        n = 0
+        while self.truth(self.eval(st.test, env), self.loc(st)):
+            n += 1
+            if n > 64:
+                raise Unsupported(f"while loop at line {st.lineno} did not finish within 64 iterations")
+            try:
+                self.exec_block(st.body, env)
+            except _Break:
+                break
+            except _Continue:
+                continue
+
+    def st_Assert(self, st, env):
+        if not self.truth(self.eval(st.test, env), self.loc(st)):
+            raise Raise(self.bi.make_exc("AssertionError", "assert"), f"{env.module.relpath}:{st.lineno}")
+
+    def st_Delete(self, st, env):
+        for t in st.targets:
+            if isinstance(t, ast.Name) and t.id in env.vars:
+                del env.vars[t.id]
+            else:
+                raise Unsupported("del of a non-local target")
+
     def st_Break(self, st, env):
         raise _Break()
 
